@@ -157,3 +157,58 @@ Proof.
                 ltac:(repeat constructor; simpl; discriminate) eq_refl).
   destruct H as [_ H]. vm_compute in H. discriminate.
 Qed.
+
+(** ** WrapperCache(EncoderCache, Causal) ([ewstep]): each component goes through exactly the operations analysed above *)
+Theorem encwrap_forward_image : forall e c batch a id e' c' f,
+  ewstep true (e, c) (EWForward batch (Some (a, id))) = Some ((e', c'), OFwd f) ->
+  erun true e (expand [0%nat] (PStore (map (fun x : entry => snd (fst x)) batch) a id)) = Some e' /\
+  start_forward true c batch = (c', OFwd f).
+Proof.
+  intros e c batch a id e' c' f H. unfold ewstep in H. simpl.
+  destruct (enc_start e (map (fun x : entry => snd (fst x)) batch) [a] false) as [e1|] eqn:E1; [|discriminate].
+  destruct (start_forward true c batch) as [c2 r] eqn:E2. destruct r; try discriminate; injection H as <- <- <-.
+  split; [|reflexivity]. unfold enc_start in E1. simpl in E1.
+  destruct (nth_error (map (fun x : entry => snd (fst x)) batch) a); [|discriminate]. injection E1 as <-. reflexivity.
+Qed.
+
+Theorem encwrap_forward_text : forall e c batch e' c' f,
+  ewstep true (e, c) (EWForward batch None) = Some ((e', c'), OFwd f) ->
+  erun true e (expand [0%nat] (PText (map (fun x : entry => snd (fst x)) batch))) = Some e' /\
+  start_forward true c batch = (c', OFwd f).
+Proof.
+  intros e c batch e' c' f H. unfold ewstep in H. simpl in *.
+  destruct (start_forward true c batch) as [c2 r] eqn:E2. destruct r; try discriminate; injection H as <- <- <-; auto.
+Qed.
+
+Theorem encwrap_remove : forall e c q b en e' c' r,
+  ewstep true (e, c) (EWRemove q b en) = Some ((e', c'), r) ->
+  erun true e (expand [0%nat] (PRemove b en)) = Some e' /\ remove c q b en = (c', r).
+Proof.
+  intros e c q b en e' c' r H. unfold ewstep in H. destruct (remove c q b en) as [c2 r2]. injection H as <- <- <-. auto.
+Qed.
+
+(** a refused pass: the unwind Remove(seq_k, pos_k, MaxInt32) leaves the encoder entry alone when the batch continues the
+    sequence behind the image *)
+Lemma enc_unwind_fresh : forall batch e, (forall q p t, In (q, p, t) batch -> e_pos e < p) -> enc_unwind true e batch = e.
+Proof.
+  induction batch as [|[[q p] t] r IH]; intros e H; simpl; auto.
+  assert (E : enc_remove true e p MaxInt32 = e).
+  { unfold enc_remove. specialize (H q p t (or_introl eq_refl)).
+    destruct (Z.leb_spec p (e_pos e)); [lia|]. simpl. rewrite Z.eqb_refl, andb_false_r. reflexivity. }
+  rewrite E. apply IH. intros q' p' t' Hin. apply (H q' p' t'). right. exact Hin.
+Qed.
+
+Theorem encwrap_refused : forall e c batch img e' c' er,
+  ewstep true (e, c) (EWForward batch img) = Some ((e', c'), OErr er) ->
+  (forall q p t, In (q, p, t) batch -> e_pos e < p) ->
+  e_cached e' = e_cached e /\ e_pos e' = e_pos e /\ e_data e' = e_data e /\ start_forward true c batch = (c', OErr er).
+Proof.
+  intros e c batch img e' c' er H Hf. unfold ewstep in H.
+  destruct (enc_start e (map (fun x : entry => snd (fst x)) batch) (match img with Some (at_, _) => [at_] | None => [] end) false) as [e1|] eqn:E1; [|discriminate].
+  destruct (start_forward true c batch) as [c2 r] eqn:E2. destruct r; try discriminate.
+  - destruct img as [[? ?]|]; discriminate.
+  - injection H as <- <- <-.
+    assert (H1 : e_cached e1 = e_cached e /\ e_pos e1 = e_pos e /\ e_data e1 = e_data e).
+    { unfold enc_start in E1. destruct img as [[a i]|]; [destruct (nth_error _ _) in E1; [|discriminate]|]; injection E1 as <-; auto. }
+    destruct H1 as [A [B C]]. rewrite enc_unwind_fresh by (intros; rewrite B; eapply Hf; eauto). auto.
+Qed.
